@@ -334,6 +334,29 @@ def _run_pre_history(rundir, pre, args, outdir_, home_, cache):
         raise RuntimeError("pre-history run: %s" % r0_["harness_error"])
 
 
+def _locate_fault(fault, trace):
+    """stage-/label-relative fault -> absolute event index, from the trace of a fault-free probe run of the same job"""
+    from .checks import c07 as _c07
+    labels = simrun.event_labels(trace)
+    st = _c07.stages_of(labels)
+    k0 = _c07.first_crashable(labels)
+    cand = [seq for seq, slot, label, occ in labels if seq >= k0 and (not fault.get("stage") or st[seq] == fault["stage"])]
+    if fault.get("label_rx"):
+        # label-relative: the nth event (counted from the end when negative) whose templated label matches
+        import re as _re
+        rx = _re.compile(fault["label_rx"])
+        hits = [seq for seq, slot, label, occ in labels if seq >= k0 and rx.search(label)
+                and (not fault.get("stage") or st[seq] == fault["stage"])]
+        if hits:
+            nth = int(fault.get("nth", 0))
+            cand = [hits[nth % len(hits)] if nth >= 0 else hits[max(0, len(hits) + nth)]]
+            fault["frac"] = 0.0
+    if not cand:
+        cand = [seq for seq, slot, label, occ in labels if seq >= k0] or [0]
+    fault["index"] = cand[min(len(cand) - 1, int(float(fault.get("frac", 0.5)) * len(cand)))]
+    return fault
+
+
 def crash_resume(args):
     """run with a kill fault, then `--resume` fault-free (optionally with a second crash first), then summarise.
     args: spec, opts, sched, bufsize, fault {index, phase}, resume {threads?, sched?, bufsize?, fault2?}"""
@@ -385,23 +408,7 @@ def crash_resume(args):
             r0 = run_once(rundir, truth, paths, args.get("opts"), sched=args.get("sched"), fault=None,
                           bufsize=args.get("bufsize", 8192), logname="probe.log", outdir=os.path.join(probe, "out"),
                           home=os.path.join(probe, "home"))
-            labels = simrun.event_labels(r0["trace"])
-            st = _c07.stages_of(labels)
-            k0 = _c07.first_crashable(labels)
-            cand = [seq for seq, slot, label, occ in labels if seq >= k0 and (not fault.get("stage") or st[seq] == fault["stage"])]
-            if fault.get("label_rx"):
-                # label-relative: the nth event (counted from the end when negative) whose templated label matches
-                import re as _re
-                rx = _re.compile(fault["label_rx"])
-                hits = [seq for seq, slot, label, occ in labels if seq >= k0 and rx.search(label)
-                        and (not fault.get("stage") or st[seq] == fault["stage"])]
-                if hits:
-                    nth = int(fault.get("nth", 0))
-                    cand = [hits[nth % len(hits)] if nth >= 0 else hits[max(0, len(hits) + nth)]]
-                    fault["frac"] = 0.0
-            if not cand:
-                cand = [seq for seq, slot, label, occ in labels if seq >= k0] or [0]
-            fault["index"] = cand[min(len(cand) - 1, int(float(fault.get("frac", 0.5)) * len(cand)))]
+            _locate_fault(fault, r0["trace"])
             shutil.rmtree(probe, ignore_errors=True)
             for fn in set(os.listdir(indir)) - before:
                 # side products of the probe next to the inputs (reference index) - the real run must create them itself
@@ -765,6 +772,18 @@ def cache_session(args):
             shutil.rmtree(rundir, ignore_errors=True)
 
 
+def _snapshot_dirs(dirs):
+    for d in dirs:
+        shutil.rmtree(d + ".snapshot", ignore_errors=True)
+        shutil.copytree(d, d + ".snapshot")
+
+
+def _restore_dirs(dirs):
+    for d in dirs:
+        shutil.rmtree(d)
+        os.rename(d + ".snapshot", d)
+
+
 def reuse(args):
     """C15 pipeline level: run with --keep_tmp, then a second invocation with --read_assignments <saved prefix>;
     returns both digests (GTF title line dropped: the experiment name necessarily differs)"""
@@ -810,6 +829,51 @@ def reuse(args):
                     j += 1
                 del argv[i:j]
         argv += ["--read_assignments"] + [os.path.join(r1["outdir"], p, "aux", p + ".save") for p in r1["prefixes"]]
+        hist = args.get("restart_history")
+        if hist:
+            # history of restarts from the SAME saved assignments: an earlier restart (other options; complete, or killed at
+            # hist["earlier_fault"]) into the same folder, then the restart under test is killed at hist["fault"] and resumed
+            eo = dict(o2)
+            eo.update(hist.get("earlier_opts") or {})
+            eargv, _ = make_argv(truth, paths, dict(eo, keep_tmp=False), out2, indir)
+            for flag in ("--bam", "--yaml", "--bam_list"):
+                if flag in eargv:
+                    i = eargv.index(flag)
+                    j = i + 1
+                    while j < len(eargv) and not eargv[j].startswith("-"):
+                        j += 1
+                    del eargv[i:j]
+            eargv += argv[argv.index("--read_assignments"):]
+            ef = dict(hist["earlier_fault"]) if hist.get("earlier_fault") else None
+            if ef and "index" not in ef:
+                auxs = [os.path.join(r1["outdir"], p_, "aux") for p_ in r1["prefixes"]]
+                _snapshot_dirs(auxs)
+                pr = run_once(rundir, truth, paths, eo, sched=args.get("sched"), bufsize=args.get("bufsize", 8192),
+                              argv_override=[os.path.join(rundir, "out_probe") if x == out2 else x for x in eargv], logname="probe0.log",
+                              outdir=os.path.join(rundir, "out_probe"))
+                _locate_fault(ef, pr["trace"])
+                shutil.rmtree(os.path.join(rundir, "out_probe"), ignore_errors=True)
+                _restore_dirs(auxs)
+            if not hist.get("skip_earlier"):
+                re_ = run_once(rundir, truth, paths, eo, sched=args.get("sched"), bufsize=args.get("bufsize", 8192),
+                               argv_override=eargv, logname="earlier.log", outdir=out2, fault=ef)
+                res["earlier"] = {"exit": re_["exit"], "crashed": re_["crashed"], "label": re_["crash_label"]}
+            f2 = dict(hist["fault"])
+            if "index" not in f2:
+                # the probe must not change anything next to the saved assignments (that folder is shared with the run under test)
+                auxs = [os.path.join(r1["outdir"], p_, "aux") for p_ in r1["prefixes"]]
+                _snapshot_dirs(auxs)
+                pr = run_once(rundir, truth, paths, o2, sched=args.get("sched2") or args.get("sched"), bufsize=args.get("bufsize", 8192),
+                              argv_override=[os.path.join(rundir, "out_probe") if x == out2 else x for x in argv], logname="probe.log",
+                              outdir=os.path.join(rundir, "out_probe"))
+                _locate_fault(f2, pr["trace"])
+                shutil.rmtree(os.path.join(rundir, "out_probe"), ignore_errors=True)
+                _restore_dirs(auxs)
+            rk = run_once(rundir, truth, paths, o2, sched=args.get("sched2") or args.get("sched"), bufsize=args.get("bufsize", 8192),
+                          argv_override=argv, logname="killed.log", outdir=out2, fault=f2)
+            res["killed"] = {"crashed": rk["crashed"], "label": rk["crash_label"], "index": f2.get("index"), "exit": rk["exit"]}
+            if rk["crashed"]:
+                argv = ["--resume", "-o", out2]
         r2 = run_once(rundir, truth, paths, o2, sched=args.get("sched2") or args.get("sched"), bufsize=args.get("bufsize", 8192),
                       argv_override=argv, logname="stdout.log", outdir=out2)
         res["second"] = {"exit": r2["exit"], "digests": norm(out2), "events": r2["events"], "trace_sha": simrun.trace_digest(r2["trace"]),
